@@ -709,7 +709,9 @@ def _run_analysis(case, kind, tmp):
         maxobs[f"{kind}.max_abs_dev_vs_serial"] = max(maxobs.get(f"{kind}.max_abs_dev_vs_serial", 0.0), dev if dev != float("inf") else 1e300)
         sub = f"{kind}:{case['opts'].get('test')}" if kind.startswith("kk") or kind == "cnls" else kind
         if bad:
-            replay = {k: v for k, v in case.items() if k != "runs"}
+            replay = {k: v for k, v in case.items() if k not in ("runs", "spec")}
+            if "spec" in case:  # concrete spectrum instead of the mock-data recipe
+                replay.update(src=f"mock:{case['spec']['mock']}", spec_origin=case["spec"], f=[float(x) for x in data.get_frequencies()], Z=_zlist(data.get_impedances()))
             replay["runs"] = [runs[0], run]
             viol.append(
                 {
